@@ -43,7 +43,7 @@ pub fn gen_redactions(rng: &mut Rng, ic: &IssuedCase) -> Vec<Vec<String>> {
 }
 
 pub fn projects(ctx: &mut Ctx, ic: &IssuedCase, shows: &[Vec<usize>]) -> Vec<Value> {
-    let r = tree_op(ctx, &ic.sd_alg, &ic.tree, if ic.reference { None } else { ic.payload.get("_sd") }, shows);
+    let r = tree_op(ctx, &ic.sd_alg, &ic.tree, None, shows);
     r["projects"].as_array().cloned().unwrap_or_default().iter().map(|p| {
         let mut e = p.clone();
         for k in ["cnf", "exp"] {
@@ -113,10 +113,12 @@ pub fn run_case(ctx: &mut Ctx, case: &Value) {
         let m = ctx.driver.ask(&json!({"op":"flow","entry":"holder_build","token":ic.token,"jwt_ok":true,"redacted":r,
             "kb_params": if ic.kb { json!({"aud":aud,"alg":"RS256"}) } else { Value::Null }, "nonce":"", "now":0}));
         let prefix_real = &pres[..pres.len() - plast.len()];
-        if m["ok"]["prefix"].as_str() != Some(prefix_real) {
+        // (byte for byte up to the order of the disclosures, which the model fixes and the property does not)
+        if m["ok"]["prefix"].as_str().map(canon_prefix) != Some(canon_prefix(prefix_real)) {
             ctx.report.diff("correspondence", "Holder::build", "Holder::build:prefix-differs-from-model", &c2,
                 json!({"real": prefix_real, "model": m}));
         }
+        if m["ok"]["prefix"].as_str() != Some(prefix_real) { ctx.report.bump("presentation:disclosures-in-other-order-than-model"); }
         // --- verifier
         let vv = real::verifier_verify(&pres, &dec, &validation, if ic.kb { Some(&policy) } else { None });
         let real_out = vv.clone().map(|(_, c)| (c, None));
